@@ -39,6 +39,8 @@ class SimPool:
         self.free_at = [0.0] * self.W
         self.task_counter = 0
         self.done_seq = itertools.count()
+        self.pending = []
+        self._processes = self.W  # attribute of multiprocessing.Pool that callers peek at
         self.log = log if log is not None else {}
         self.log.setdefault("calls", [])
         self.log.setdefault("completion_order", [])
@@ -59,10 +61,12 @@ class SimPool:
         self.running = False
 
     def terminate(self):
+        # outstanding work is abandoned: callbacks of unfinished handles never fire
         self.running = False
+        self.pending = []
 
     def join(self):
-        pass
+        self._drain()
 
     def _check(self):
         if not self.running:
@@ -194,49 +198,99 @@ class SimPool:
         return out
 
     class _Async:
-        def __init__(self, thunk):
-            self._thunk = thunk
-            self._done = False
-            self._val = None
+        """Result handle of map_async / starmap_async / apply_async.  The tasks were handed
+        to the simulated workers when the call was made; the handle completes at the
+        simulated time its last task completes.  Callbacks run (as in a real pool's result
+        handler) in order of COMPLETION, not of submission: whenever the caller blocks on any
+        handle until simulated time T, the callbacks of every outstanding handle that
+        completes by T fire first, earliest completion first."""
 
-        def get(self, timeout=None):
-            if not self._done:
-                self._val = self._thunk()
-                self._done = True
-            return self._val
+        def __init__(self, pool, results, single, callback, error_callback):
+            self.pool = pool
+            self.results = results
+            self.single = single
+            self.callback = callback
+            self.error_callback = error_callback
+            self.done_at = max([r.done_at for r in results], default=pool.now)
+            self.fired = False
+            self.seq = next(pool.done_seq)
 
-        def ready(self):
-            return True
+        def _value(self):
+            for r in self.results:
+                if r.exc is not None:
+                    raise r.exc
+            vals = [r.value for r in self.results]
+            return vals[0] if self.single else vals
 
-        def successful(self):
+        def _fire(self):
+            if self.fired:
+                return
+            self.fired = True
+            self.pool.log.setdefault("async_completion_order", []).append(self.seq)
             try:
-                self.get()
-                return True
-            except Exception:  # noqa: BLE001
-                return False
+                v = self._value()
+            except Exception as e:  # noqa: BLE001
+                if self.error_callback is not None:
+                    self.error_callback(e)
+                return
+            if self.callback is not None:
+                self.callback(v)
 
         def wait(self, timeout=None):
-            pass
+            self.pool._advance_to(self.done_at)
+
+        def get(self, timeout=None):
+            self.pool._advance_to(self.done_at)
+            return self._value()
+
+        def ready(self):
+            return self.pool.now >= self.done_at
+
+        def successful(self):
+            if not self.ready():
+                raise ValueError("not ready")
+            return all(r.exc is None for r in self.results)
+
+    def _advance_to(self, t):
+        """The caller blocks until simulated time t: callbacks of handles completing by then
+        fire in completion order."""
+        self.now = max(self.now, t)
+        pend = [h for h in self.pending if not h.fired and h.done_at <= self.now]
+        for h in sorted(pend, key=lambda h: (h.done_at, h.seq)):
+            h._fire()
+        self.pending = [h for h in self.pending if not h.fired]
+
+    def _drain(self):
+        if self.pending:
+            self._advance_to(max(h.done_at for h in self.pending))
+
+    def _submit_async(self, func, items, chunksize, star, single, callback, error_callback):
+        results = []
+        cs = chunksize or self.default_chunksize
+        for first, chunk in self._chunks(items, cs):
+            results.extend(self._run_chunk(func, chunk, first, star=star))
+        h = SimPool._Async(self, results, single, callback, error_callback)
+        self.pending.append(h)
+        return h
 
     def map_async(self, func, iterable, chunksize=None, callback=None, error_callback=None):
         self._check()
         self.log["calls"].append("map_async")
-        return SimPool._Async(lambda: self.map(func, iterable, chunksize))
+        return self._submit_async(func, list(iterable), chunksize, False, False, callback,
+                                  error_callback)
+
+    def starmap_async(self, func, iterable, chunksize=None, callback=None, error_callback=None):
+        self._check()
+        self.log["calls"].append("starmap_async")
+        return self._submit_async(func, list(iterable), chunksize, True, False, callback,
+                                  error_callback)
 
     def apply_async(self, func, args=(), kwds=None, callback=None, error_callback=None):
         self._check()
         self.log["calls"].append("apply_async")
         kwds = kwds or {}
-        res = self._run_chunk(lambda a: func(*a, **kwds), [tuple(args)], self.task_counter)
-
-        def thunk():
-            r = res[0]
-            self.now = max(self.now, r.done_at)
-            if r.exc is not None:
-                raise r.exc
-            return r.value
-
-        return SimPool._Async(thunk)
+        return self._submit_async(lambda a: func(*a, **kwds), [tuple(args)], 1, False, True,
+                                  callback, error_callback)
 
     def apply(self, func, args=(), kwds=None):
         return self.apply_async(func, args, kwds).get()
